@@ -42,6 +42,17 @@ def handle (j : Json) : Json :=
     | some s => ok (Json.arr #[Json.num (JsonNumber.fromNat s.core), Json.num (JsonNumber.fromNat s.ram), Json.num (JsonNumber.fromNat s.disk)])
     | none => ok Json.null
   | .arr #[.str "enum"] => ok (ofStrs (enumNames componentCatalog))
+  | .arr #[.str "session", .arr rs] =>
+    let one (r : Json) : Option (String × String × Option (List String) × Option (List Bdf)) :=
+      match r with
+      | .arr #[.str model, .str type, ids, labels] =>
+        match parseOptList ids optStr, parseOptList labels parseBdf with
+        | some ids, some labels => some (model, type, ids, labels)
+        | _, _ => none
+      | _ => none
+    match rs.toList.mapM one with
+    | some reqs => ok (Json.arr ((sessionObjs componentCatalog 0 reqs).map (fun l => Json.arr (l.map (fun (n : Nat) => Json.num (JsonNumber.fromNat n))).toArray)).toArray)
+    | none => err "bad-args"
   | .arr #[.str "gen", .str name, .str model, .str type, nsId, ids, labels, parent] =>
     match parseOptList ids optStr, parseOptList labels parseBdf with
     | some ids, some labels =>
